@@ -1,12 +1,13 @@
 """Which unit modules decide which property, and the per-property scope text."""
 PROPS = {
-    "C07": ["u_hier", "u_apiwrap"],
+    "C07": ["u_hier", "u_apiwrap", "u_indexsets"],
     "C08": ["u_apiwrap"],
     "C02": ["u_tables"],
     "C15": ["u_dream"],
     "C19": ["u_graddesc"],
     "C17": ["u_surrogate"],
     "C14": ["u_apiwrap"],
+    "C01": ["u_indexsets"],
 }
 COMMON_ASSUME = [
     "CBMC 6.11 and its C semantics are trusted; double is IEEE-754 binary64 round-to-nearest",
@@ -38,6 +39,9 @@ PROP_META = {
   "level_text": "pending", "level_note": "pending", "assumptions": COMMON_ASSUME, "not_decided": [],
  },
  "C08": {
+  "level_text": "pending", "level_note": "pending", "assumptions": COMMON_ASSUME, "not_decided": [],
+ },
+ "C01": {
   "level_text": "pending", "level_note": "pending", "assumptions": COMMON_ASSUME, "not_decided": [],
  },
 }
